@@ -221,3 +221,48 @@ def acc_name_of(v) -> Optional[str]:
         return None
     names = {a[1][:-1] for a in v.all_atoms() if a[0] == "s" and a[1].endswith("~")}
     return names.pop() if len(names) == 1 else None
+
+
+def norm_cond(c: Cond):
+    """canonical nested-tuple form of a condition: comparisons oriented to '<' / '<=' / '==' / '!=', and/or children sorted"""
+    if c.kind == "cmp":
+        a, op, b = c.args
+        if op == ">=":
+            a, op, b = b, "<=", a
+        elif op == ">":
+            a, op, b = b, "<", a
+        if op in ("==", "!=") and repr(a) > repr(b):
+            a, b = b, a
+        return ("cmp", repr(a), op, repr(b))
+    if c.kind in ("and", "or"):
+        kids = []
+        for x in c.args:
+            n = norm_cond(x)
+            if n[0] == c.kind:
+                kids.extend(n[1])
+            else:
+                kids.append(n)
+        return (c.kind, tuple(sorted(kids, key=repr)))
+    if c.kind == "not":
+        inner = c.args[0]
+        if inner.kind == "cmp":
+            a, op, b = inner.args
+            neg = {"<": ">=", "<=": ">", ">": "<=", ">=": "<", "==": "!=", "!=": "=="}.get(op)
+            if neg:
+                return norm_cond(Cond("cmp", a, neg, b))
+        return ("not", norm_cond(inner))
+    if c.kind == "truth":
+        return ("truth", repr(c.args[0]))
+    return ("opaque", repr(c))
+
+
+def CMP(a, op, b) -> Cond:
+    return Cond("cmp", a, op, b)
+
+
+def AND(*cs) -> Cond:
+    return Cond("and", *cs)
+
+
+def OR(*cs) -> Cond:
+    return Cond("or", *cs)
